@@ -446,7 +446,15 @@ def violin_oracle(case):
         return 1e-200 < v < 1e200 and math.sqrt(v) > 1e-7 * m
     ok = [spread_ok(c) for c in cols]
     try:
-        vl = violinplot.Violin(data)
+        # display options (number of points of the density curve, rows
+        # used to estimate it) never change the summaries
+        vopt = [{}, {}, {"npoints_kde": 50}, {"nresample_kde": 10},
+                {"npoints_kde": 1000, "nresample_kde": max(1, nrow // 2)},
+                {"nresample_kde": nrow}, {"show_text": False}][
+                    (nrow + len(cols)) % 7]
+        if vopt:
+            labels.append("options:" + ",".join(sorted(vopt)))
+        vl = violinplot.Violin(data, **vopt)
     except Exception as e:
         if all(ok):
             raise Violation(f"Violin raised {type(e).__name__}: "
